@@ -27,6 +27,12 @@ HW_INDEPENDENT = ['params', 'params_no_bias', 'params_bit', 'ops', 'ops_no_bias'
 
 VARS = {'in_channels': 0, 'in_features': 0, 'out_channels': 1, 'out_features': 1,
         'w_precision': 6, 'in_precision': 7, 'a_precision': 7, 'groups': 9, 'w_theta_alpha': 10}
+# straight-through rounding helpers of the HAND-modelled files, pinned to the definitions of Model/CostFns.v:
+# (module, class or function, Gallina function of Model/CostFns.v).  Their `forward` is translated with the two
+# arguments as EVar 0 / EVar 1 and must be provably equal to the hand definition for all rationals.
+PINS = [('ne16_latency', 'FloorDivideSTE', 'floor_divide'), ('ne16_latency', 'ModuloSTE', 'modulo'), ('ne16_latency', 'DivAndCeilSTE', 'div_and_ceil'),
+        ('diana_latency', 'FloorSTE', 'floor_ste'), ('diana_latency', '_floor', 'floor_ste'),
+        ('gap8_latency', 'FloorSTE', 'floor_ste'), ('gap8_latency', '_floor', 'floor_ste')]
 V_K0, V_K1, V_O2, V_O3, V_BIAS = 2, 3, 4, 5, 8
 NVARS = 11
 VAR_NAMES = ['cin', 'cout', 'k0', 'k1', 'o2', 'o3', 'w_prec', 'in_prec', 'bias', 'groups', 'theta']
@@ -174,6 +180,27 @@ class Translator:
             raise Untranslatable('%s.%s does not return a number' % (modname, fname))
         return guards, body
 
+    def translate_helper(self, modname, name):
+        """term of a two-argument helper (autograd Function -> its forward; plain function) over EVar 0, EVar 1"""
+        m = self.mod(modname)
+        args = [('var', 0), ('var', 1)]
+        guards = []
+        try:
+            cm, cdef = self.resolve(m, name, 'class')
+        except Untranslatable:
+            cdef = None
+        if cdef is not None:
+            fwd = [n for n in cdef.body if isinstance(n, ast.FunctionDef) and n.name == 'forward']
+            if len(fwd) != 1:
+                raise Untranslatable('%s has no forward' % name)
+            body = self.call_function(cm, fwd[0], args, guards, 1, skip_first=True)
+        else:
+            fm, fdef = self.resolve(m, name, 'func')
+            body = self.call_function(fm, fdef, args, guards, 1)
+        if guards or not is_term(body):
+            raise Untranslatable('helper %s.%s is not a plain arithmetic function' % (modname, name))
+        return body
+
     def call_function(self, m, fdef, args, guards, depth, skip_first=False):
         if depth > 8:
             raise Untranslatable('call depth')
@@ -289,6 +316,8 @@ class Translator:
             a, b = ev(e.left), ev(e.right)
             if isinstance(e.op, ast.FloorDiv):
                 return floor_(binop('div', a, b))
+            if isinstance(e.op, ast.Mod):            # a % b = a - b * floor(a / b)   (Python / torch semantics for b > 0)
+                return binop('sub', a, binop('mul', b, floor_(binop('div', a, b))))
             if type(e.op) in ops:
                 return binop(ops[type(e.op)], a, b)
             raise Untranslatable('operator %s (line %d of %s)' % (type(e.op).__name__, e.lineno, m.name))
@@ -485,6 +514,15 @@ def translate_repo(repo, modules=MODULES):
                 ents.append((pat, fname, cn))
             sp = dict(sp, entries=ents)
             out['specs'].append(sp)
+    out['pins'] = {}
+    for mod, name, gallina in PINS:
+        pn = 'pin__%s__%s' % (mod, name.lstrip('_'))
+        try:
+            out['pins'][pn] = {'module': mod, 'py_name': name, 'gallina': gallina, 'term': tr.translate_helper(mod, name)}
+        except (Untranslatable, OSError, SyntaxError) as ex:
+            out['errors'][pn] = 'untranslatable: %s' % ex
+        except RecursionError:
+            out['errors'][pn] = 'untranslatable: recursion'
     return out
 
 
@@ -570,6 +608,8 @@ def obligations(res):
                 g, w = ent.get('Conv%sGeneric' % d), ent.get('Conv%sDW' % d)
                 if g in res['functions'] and w in res['functions']:
                     obs.append(('%s_conv%s_dw_eq_generic' % (sp['name'], d), 'dw', (w, g)))
+    for pn in res.get('pins', {}):
+        obs.append((pn, 'pin', pn))
     return obs
 
 
@@ -581,7 +621,7 @@ def emit_coq(res, skip=()):
     L.append('   One [cfun] per registered cost function, the registration table of every CostSpec, and the')
     L.append('   reflective obligations (okb / posb by vm_compute, depthwise = generic per group by ring). *)')
     L.append('From Coq Require Import QArith List String Ring.')
-    L.append('Require Import Plinio.Base.Qx Plinio.Base.Expr.')
+    L.append('Require Import Plinio.Base.Qx Plinio.Base.Expr Plinio.Model.CostFns.')
     L.append('Import ListNotations.')
     L.append('Open Scope Q_scope.')
     L.append('')
@@ -615,6 +655,13 @@ def emit_coq(res, skip=()):
         L.append('Lemma %s : forall r g,' % name)
         L.append('  eval (upd (upd r V_cin g) V_cout g) (cf_body %s) == g * eval (upd (upd r V_cin 1) V_cout 1) (cf_body %s).' % (w, g))
         L.append('Proof. intros r g. unfold %s, %s. cbn [cf_body eval]. unfold upd, V_cin, V_cout. cbn [Nat.eqb]. ring. Qed.' % (w, g))
+        L.append('')
+    for pn, pin in res.get('pins', {}).items():
+        if pn in skip:
+            continue
+        L.append('(* %s.%s computes, on ALL rationals, what the hand model Model/CostFns.v says *)' % (pin['module'], pin['py_name']))
+        L.append('Lemma %s : forall r, eval r %s == %s (r 0%%nat) (r 1%%nat).' % (pn, coq_term(pin['term']), pin['gallina']))
+        L.append('Proof. intro r. cbn [eval]. unfold %s. first [reflexivity | ring | field]. Qed.' % pin['gallina'])
         L.append('')
     for sp in res['specs']:
         ents = '; '.join('("%s"%%string, "%s"%%string, %s)' % (p, cn, cn) for p, _, cn in sp['entries'] if cn in res['functions'])
